@@ -84,6 +84,10 @@ pub fn roots(tier: &str, seed: u64) -> Vec<Root> {
                 let dfs_budget = if n == 2 { if thorough { 600 } else { 120 } } else if thorough { 900 } else { 40 };
                 v.push(Root { prog: prog.clone(), leader, out_mask: m.clone(), inputs: inputs.clone(), mode: "dfs", budget: dfs_budget, seed: seed ^ k });
                 v.push(Root { prog: prog.clone(), leader, out_mask: m.clone(), inputs: inputs.clone(), mode: "random", budget: if thorough { 60 } else { 12 }, seed: seed ^ (k << 20) });
+                if mi == 0 {
+                    // every answer of a coordination RPC is overtaken by everything else
+                    v.push(Root { prog: prog.clone(), leader, out_mask: m.clone(), inputs: inputs.clone(), mode: "replies-last", budget: 1, seed: seed ^ (k << 28) ^ 0x7a });
+                }
                 if mi < 2 {
                     // answers of coordination RPCs travel independently of requests (separately gated)
                     v.push(Root { prog: prog.clone(), leader, out_mask: m.clone(), inputs, mode: "random-replies", budget: if thorough { 80 } else { 12 }, seed: seed ^ (k << 24) ^ 0x5e });
@@ -104,7 +108,7 @@ pub fn run_root(r: &Root) -> Value {
     let mut sample = Value::Null;
     let mut once = |strategy: Strategy, execs: &mut u64| -> Option<(Vec<usize>, Vec<usize>)> {
         let mut sc = scenario_for(r, strategy, 0x1000 + *execs as u128);
-        sc.gate_replies = r.mode == "random-replies";
+        sc.gate_replies = r.mode == "random-replies" || r.mode == "replies-last";
         let rec = server::explore(&sc);
         *execs += 1;
         rpcs_released += rec.rpcs.iter().filter(|x| x.fate == "delivered").count() as u64;
@@ -141,6 +145,8 @@ pub fn run_root(r: &Root) -> Value {
             }
         }
         complete = stack.is_empty();
+    } else if r.mode == "replies-last" {
+        once(Strategy::RepliesLast, &mut execs);
     } else {
         for k in 0..r.budget {
             once(Strategy::Random(r.seed ^ (k as u64).wrapping_mul(0x9e3779b97f4a7c15)), &mut execs);
@@ -158,7 +164,7 @@ pub fn child(tier: &str, seed: u64, a: shard::ShardArgs) {
 
 pub fn run(tier: &str, seed: u64) -> i32 {
     let mut rep = Report::new("C13", tier, seed, "exploration");
-    rep.rule = "real PolicyState actors behind a gated in-process PolicyClient on a paused-clock current-thread runtime; per (program with constants from none/some/all parties, leader, output-destination mask): depth-first enumeration of schedule-arrival and coordination-RPC delivery orders by stateless re-execution (complete for n=2 within the budget, bounded for n=3 in quick) plus seeded random orders that also interleave the MPC messages, and seeded random orders in which the answers of coordination RPCs are delivered as separate decisions (answers overtaken by later requests). Oracle at exact quiescence: every schedule Ok, exactly one output per destination and equal to the native reference of the program, no output elsewhere, every actor stopped without panic, all permits back. distinct = (program, leader, mask, order of choices); non-trivial = the execution had at least one branching point".into();
+    rep.rule = "real PolicyState actors behind a gated in-process PolicyClient on a paused-clock current-thread runtime; per (program with constants from none/some/all parties, leader, output-destination mask): depth-first enumeration of schedule-arrival and coordination-RPC delivery orders by stateless re-execution (complete for n=2 within the budget, bounded for n=3 in quick) plus seeded random orders that also interleave the MPC messages, seeded random orders in which the answers of coordination RPCs are delivered as separate decisions, and one order per (program, leader) in which every answer is overtaken by everything else (requests and MPC messages first). Oracle at exact quiescence: every schedule Ok, exactly one output per destination and equal to the native reference of the program, no output elsewhere, every actor stopped without panic, all permits back. distinct = (program, leader, mask, order of choices); non-trivial = the execution had at least one branching point".into();
     rep.assumptions = vec!["quiescence = runtime idle under the paused clock, no pending delivery, no extra OS thread (/proc/self/task)".into(), "MPC message deliveries do not branch in the DFS (oldest first); random mode interleaves them".into()];
     let rs = roots(tier, seed);
     let results = shard::run_parent("C13", tier, seed, rs.len(), crate::runner::threads(), &[]);
